@@ -16,7 +16,8 @@ RULE = (
     'simulated values of one cell pairwise separated by >=1e-3 relative; plus the transformations of the metamorphic '
     'clauses: 0-3 all-missing individuals inserted at drawn positions, measurements to blank (never the last of a '
     'cell), a permutation of the measured individuals, one or two successive time orders (permutations), and a '
-    'refinement of every part into consecutive sub-filters of the same class. Non-trivial: (>=2 observables or >=2 '
+    'refinement of every part into consecutive sub-filters of the same class (flat or as a composition of composed '
+    'filters; also with the sub-filters sorted individually before composing). Non-trivial: (>=2 observables or >=2 '
     'times) and a missing value present and n_sim>=3. Distinct = distinct (parts, composed, shape, n_sim, missing '
     'pattern, orders, refinement, padding) projections.')
 ASSUMPTIONS = [
@@ -32,7 +33,7 @@ ASSUMPTIONS = [
     'the value clause already fails']
 REQUIRED = ['kind:gauss', 'kind:lognorm', 'kind:gkde', 'kind:lnkde', 'kind:gmix', 'composed', 'mixed', 'plain',
             'nan', 'full', 'pad', 'drop', 'order2', 'order:noninvolution', 'refined', 'n_ids=1', 'n_times=1',
-            'nk=3', 'n_sim=2']
+            'nk=3', 'n_sim=2', 'nested']
 
 
 # --------------------------------------------------------------------------
@@ -123,7 +124,8 @@ def _spec(draw):
     order1 = list(draw(st.permutations(list(range(n_times)))))
     order2 = list(draw(st.permutations(list(range(n_times))))) if gen.chance(draw, 0.6) else None
     refine = [_cuts(draw, p['nt'], p['nt']) for p in parts]
-    return dict(parts=parts, composed=composed, obs=obs, sim=sim, drop=drop, pad=pad, perm=perm,
+    nest = gen.chance(draw, 0.3)
+    return dict(nest=nest, parts=parts, composed=composed, obs=obs, sim=sim, drop=drop, pad=pad, perm=perm,
                 order1=order1, order2=order2, refine=refine)
 
 
@@ -167,6 +169,8 @@ def classify(spec):
         labs.add('order:identity')
     if any(len(c) > 1 for c in spec['refine']):
         labs.add('refined')
+    if spec['nest']:
+        labs.add('nested')
     if n_ids == 1:
         labs.add('n_ids=1')
     if n_times == 1:
@@ -186,7 +190,7 @@ def nontrivial(spec):
 def structure(spec):
     return [spec['parts'], spec['composed'], list(_shape(spec)), len(spec['sim']),
             [[[v is None for v in b] for b in a] for a in spec['obs']],
-            spec['order1'], spec['order2'], spec['refine'], spec['pad'], len(spec['drop'])]
+            spec['order1'], spec['order2'], spec['refine'], spec['nest'], spec['pad'], len(spec['drop'])]
 
 
 # --------------------------------------------------------------------------
@@ -253,10 +257,12 @@ def check(case):
                 and np.all(np.isfinite(np.asarray(out[1], dtype=float))) and np.isfinite(float(out[0])):
             g0 = (float(out[0]), np.asarray(out[1], dtype=float).copy())
         want_g = rf.filter_grad(parts, obs, sim)
+        # the score is compared with chi's own value (the reference value is the subject of clause 'value');
+        # here the derivative is the subject
         if v0 is not None:
             case.close(float(out[0]), v0, rtol=1e-12, what='score of compute_sensitivities vs compute_log_likelihood')
-        # the score is compared with chi's own value above and with the reference in 'value';
-        # here the derivative is the subject
+        else:
+            case.close(float(out[0]), want, rtol=1e-9, what='score of compute_sensitivities')
         _sens(case, f, sim, float(out[0]), want_g, 'reference', rtol_g=1e-7)
 
     if v0 is None and g0 is None:
@@ -292,35 +298,82 @@ def check(case):
             _same_as_base(case, rf.build(parts, obs[s['perm']], composed), sim, v0, g0, 'measured individuals permuted')
 
     # ---- time orders ---------------------------------------------------------
-    def sort_clause(name, make):
-        with case.clause(name):
-            fs = make()
-            o1 = np.array(s['order1'], dtype=int)
-            fs.sort_times(o1.copy())
-            sim1 = sim[:, :, o1]
-            case.equal(int(fs.n_times()), n_times, 'n_times after sort_times')
-            _same_as_base(case, fs, sim1, v0, None if g0 is None else (g0[0], g0[1][:, :, o1]),
-                          'sort_times(order1) with reordered simulated values')
-        if s['order2'] is not None and name not in [fl['clause'] for fl in case.fails]:
+    def gperm(cols):
+        return None if g0 is None else (g0[0], g0[1][:, :, cols])
+
+    def sort_clause(name, make, first=True):
+        """make() -> (filter, columns of the original time axis it currently expects)."""
+        cols = np.arange(n_times)
+        fs = None
+        if first:
+            with case.clause(name):
+                fs, cols = make()
+                o1 = np.array(s['order1'], dtype=int)
+                fs.sort_times(o1.copy())
+                cols = cols[o1]
+                case.equal(int(fs.n_times()), n_times, 'n_times after sort_times')
+                _same_as_base(case, fs, sim[:, :, cols], v0, gperm(cols),
+                              'sort_times(order1) with reordered simulated values')
+        else:
+            with case.clause(name):
+                fs, cols = make()
+                _same_as_base(case, fs, sim[:, :, cols], v0, gperm(cols),
+                              'parts sorted before composing, simulated values reordered block-wise')
+        if s['order2'] is not None and fs is not None and name not in [fl['clause'] for fl in case.fails]:
             with case.clause(name + '_twice'):
                 o2 = np.array(s['order2'], dtype=int)
                 fs.sort_times(o2.copy())
-                sim2 = sim1[:, :, o2]
-                _same_as_base(case, fs, sim2, v0, None if g0 is None else (g0[0], g0[1][:, :, o1][:, :, o2]),
-                              'second sort_times(order2) with reordered simulated values')
+                cols = cols[o2]
+                _same_as_base(case, fs, sim[:, :, cols], v0, gperm(cols),
+                              'further sort_times(order2) with reordered simulated values')
 
-    sort_clause('sort', lambda: rf.build(parts, obs, composed))
+    ident = np.arange(n_times)
+    sort_clause('sort', lambda: (rf.build(parts, obs, composed), ident))
 
     # ---- splitting the time axis into a composed filter ------------------------
     fine = []
+    groups = []
     for p, sizes in zip(parts, s['refine']):
+        grp = []
         for nt in sizes:
             q = dict(p)
             q['nt'] = nt
-            fine.append(q)
+            grp.append(q)
+        fine += grp
+        groups.append(grp)
+
+    def build_split():
+        if not s['nest']:
+            return rf.build(fine, obs, True)
+        # composition of compositions: every part of the subject becomes a composed filter
+        import chi
+        inner = []
+        j0 = 0
+        for p, grp in zip(parts, groups):
+            inner.append(rf.build(grp, obs[:, :, j0:j0 + p['nt']], True))
+            j0 += p['nt']
+        return chi.ComposedPopulationFilter(inner)
+
     with case.clause('split'):
-        _same_as_base(case, rf.build(fine, obs, True), sim, v0, g0, 'time axis split into a composed filter')
-    sort_clause('split_sort', lambda: rf.build(fine, obs, True))
+        _same_as_base(case, build_split(), sim, v0, g0, 'time axis split into a composed filter')
+    sort_clause('split_sort', lambda: (build_split(), ident))
+
+    # ---- parts sorted individually, then composed (and sorted again as a whole) ----
+    def build_inner_sorted():
+        import chi
+        fs, cols = [], []
+        j0 = 0
+        for q in fine:
+            local = [o - j0 for o in s['order1'] if j0 <= o < j0 + q['nt']]
+            fq = rf.build([q], obs[:, :, j0:j0 + q['nt']], False)
+            fq.sort_times(np.array(local, dtype=int))
+            fs.append(fq)
+            cols += [j0 + k for k in local]
+            j0 += q['nt']
+        return chi.ComposedPopulationFilter(fs), np.array(cols, dtype=int)
+
+    if n_times >= 2:
+        sort_clause('inner_sort', build_inner_sorted, first=False)
 
     if len(parts) > 1:
         with case.clause('additive'):
